@@ -290,6 +290,37 @@ func servePeer(l net.Listener, c *tcase, done <-chan struct{}, greet *[]int, wg 
 			}
 			conn.SetWriteDeadline(time.Now().Add(300 * time.Millisecond))
 			conn.Write(data)
+		case "trickle": // one byte (Data[0], default 0x2e) every Delay ms, for ever; the first one after Delay
+			b := []byte{0x2e}
+			if len(a.Data) > 0 {
+				b[0] = byte(a.Data[0])
+			}
+			for {
+				conn.SetWriteDeadline(time.Now().Add(300 * time.Millisecond))
+				if _, err := conn.Write(b); err != nil {
+					<-done
+					return
+				}
+				select {
+				case <-time.After(time.Duration(maxInt(a.Delay, 1)) * time.Millisecond):
+				case <-done:
+					return
+				}
+			}
+		case "stream": // a continuous flood, ~20 MB/s, for ever
+			chunk := make([]byte, 64<<10)
+			for i := range chunk {
+				chunk[i] = 0x41
+			}
+			for {
+				conn.SetWriteDeadline(time.Now().Add(300 * time.Millisecond))
+				conn.Write(chunk) // errors (full buffers) are fine: keep offering data
+				select {
+				case <-time.After(3 * time.Millisecond):
+				case <-done:
+					return
+				}
+			}
 		case "close":
 			conn.Close()
 			closed = true
@@ -637,7 +668,7 @@ func (g *gen) faults(n int) {
 		if g.r.Intn(3) == 0 {
 			a, b = g.r.Intn(256), g.r.Intn(256)
 		}
-		switch g.r.Intn(22) {
+		switch g.r.Intn(25) {
 		case 0:
 			g.add("refused", "refuse", td, tt, -1, false)
 		case 1:
@@ -682,6 +713,14 @@ func (g *gen) faults(n int) {
 			g.add("nonpositive-data-timeout", "accept", td, -g.r.Intn(2)*g.r.Intn(50), -1, g.r.Bool(), send(0, 5, 0))
 		case 21: // negative dial timeout: expired before dialling
 			g.add("negative-dial-timeout", "accept", -1-g.r.Intn(50), tt, -1, true, send(0, 5, 0))
+		case 22, 23: // a complete reply, then one byte per fraction of the data timeout, for ever (tarpit, chargen)
+			rep := [][]int{{72, 84}, {4, 0}, {5, 255}, {5, 2}, {5, 0}, {a, b}}[g.r.Intn(6)]
+			g.add("trickle-after-reply", "accept", td, tt, -1, g.r.Bool(), send(g.r.Intn(tt/3), rep...),
+				action{Delay: tt/4 + g.r.Intn(tt/4), Kind: "trickle"})
+		case 24: // a complete reply, then an endless flood
+			rep := [][]int{{72, 84}, {4, 0}, {5, 255}, {5, 0}, {a, b}}[g.r.Intn(5)]
+			g.add("stream-after-reply", "accept", td, tt, -1, g.r.Bool(), send(g.r.Intn(tt/3), rep...),
+				action{Delay: g.r.Intn(10), Kind: "stream"})
 		}
 	}
 }
